@@ -5,6 +5,7 @@ import HttpcoreModel.Drv.H1W
 import HttpcoreModel.Drv.Pool
 import HttpcoreModel.Drv.Est
 import HttpcoreModel.Drv.C15
+import HttpcoreModel.Drv.H2
 /-!
 Line-protocol driver: one case per input line, one answer per output line.
 First token selects the model function.  Imports model files only (no proofs, no Mathlib).
@@ -25,6 +26,10 @@ def dispatch (line : String) : String :=
     else if cmd = "poolpass" then Drv.poolpass args
     else if cmd = "est" then Drv.est args
     else if cmd = "c15" then Drv.c15 args
+    else if cmd = "h2slots" then Drv.h2slots args
+    else if cmd = "h2send" then Drv.h2send args
+    else if cmd = "h2win" then Drv.h2win args
+    else if cmd = "h2goaway" then Drv.h2goaway args
     else "bad-cmd"
 
 partial def loop (h : IO.FS.Stream) (out : IO.FS.Stream) : IO Unit := do
